@@ -121,6 +121,20 @@ fn c12_centroid1_big(p: [Point1<R>; 300]) {
     }
     vcover("end");
 }
+// ... and in dimension 3 (BOUND: eight of those lengths, up to 260)
+fn c12_centroid3_big(p: [Point3<R>; 260]) {
+    let ns: [usize; 8] = [9, 16, 17, 64, 65, 256, 257, 260];
+    let mut j = 0;
+    while j < 8 {
+        let n = ns[j];
+        let mut sx = R(0.0); let mut sy = R(0.0); let mut sz = R(0.0);
+        let mut i = 0; while i < n { sx = sx + p[i].x; sy = sy + p[i].y; sz = sz + p[i].z; i += 1; }
+        let k = R(n as f64);
+        vassert_eq("centroid n=9..260", Point3::centroid(&p[..n]), Point3::new(sx / k, sy / k, sz / k));
+        j += 1;
+    }
+    vcover("end");
+}
 fn c12_centroid2_long(p: [Point2<R>; 7]) {
     let mut n = 5;
     while n <= 7 {
